@@ -64,6 +64,25 @@ void explore06(Options const& o, std::vector<Shim*> const& shims, std::vector<Sh
       sweep_un_set(s, op, op == U_ISNAN ? Sn : Su, o.threads, rec, ob2, [&](i64 x, i64 got, u64 ord, LocalViol& lv) { c.un(s, op, x, got, ord, lv); });
       sweep_un_range(s, op, -D, D, o.threads, rec, ob2 | (1ull << 40), [&](i64 x, i64 got, u64 ord, LocalViol& lv) { c.un(s, op, x, got, ord, lv); });
       }
+    // comparisons of -x, abs(x), isnan(x) against constants evaluated in the same inlined scope as the call
+    {
+    int c_scope = rec.cls("C06.comparison_of_fresh_result_wrong");
+    for( int op : { U_NEG, U_ABS, U_ISNAN } )
+      {
+      std::vector<i64> const& X = Sn;
+      const size_t B = 4096; size_t nb = (X.size() + B - 1) / B;
+      parallel_blocks(nb, o.threads, [&](size_t blk, int) {
+        LocalViol lv(rec);
+        for( size_t i = blk * B; i < std::min(X.size(), (blk + 1) * B); ++i )
+          {
+          i64 x = X[i]; i64 r = s->fm_un(op, x); u64 got = s->fm_un_cmpmask(op, x), e = expected_cmpmask(s, r);
+          if( got != e ) lv.hit(c_scope, ob | (12ull << 48) | (static_cast<u64>(op) << 40) | i, [=]{ return ex1(s, op == U_NEG ? "comparisons of (-x)" : op == U_ABS ? "comparisons of abs(x)" : "comparisons of isnan(x)", "same scope as the call", {{"x",to_s(x)}},
+              "mask " + hex(e) + " (from the returned raw value " + to_s(r) + ")", "mask " + hex(got), "mask", {to_s(op), to_s(x)}); });
+          }
+        });
+      rec.add_states(X.size(), 2 * X.size(), X.size());
+      }
+    }
     // derived laws, directly on implementation values (no oracle): -(-x) == x, abs(-x) == abs(x)
     {
     int c_law = rec.cls("C06.law_violated");
@@ -90,6 +109,9 @@ void replay06(Options const& o, Shim* s, Recorder& rec)
   DirectViol d{rec};
   if( o.rcase == "cmp" ) { int k = static_cast<int>(parse_i64(o.rin.at(0))); i64 a = parse_i64(o.rin.at(1)), b = parse_i64(o.rin.at(2)); c.cmp(s, k, a, b, s->fm_bin(CMPS[k], a, b), 0, d); }
   else if( o.rcase == "un" ) { int op = static_cast<int>(parse_i64(o.rin.at(0))); i64 x = parse_i64(o.rin.at(1)); c.un(s, op, x, s->fm_un(op, x), 0, d); }
+  else if( o.rcase == "mask" )
+    { int op = static_cast<int>(parse_i64(o.rin.at(0))); i64 x = parse_i64(o.rin.at(1)); i64 r = s->fm_un(op, x); u64 got = s->fm_un_cmpmask(op, x), e = expected_cmpmask(s, r);
+      if( got != e ) rec.viol(rec.cls("C06.comparison_of_fresh_result_wrong"), 0, [&]{ return ex1(s, "comparisons of a fresh result", "", {{"x",to_s(x)}}, hex(e), hex(got), o.rcase, o.rin); }); }
   else if( o.rcase == "law" )
     {
     i64 x = parse_i64(o.rin.at(0)); int c_law = rec.cls("C06.law_violated");
